@@ -39,6 +39,9 @@ def subject_class(e):
         b = ir.peel(e[1])
         if b[0] == 'call' and b[1] == REQ_PARSE:
             return 'req_out'
+        # a loop-carried `status`: the Yield of whichever parse call ran last
+        if b[0] == 'phi' and b[1] and all(ir.peel(x)[0] == 'call' and ir.peel(x)[1] == REQ_PARSE for x in b[1]):
+            return 'req_out'
     if e[0] == 'call' and e[1] == EPILOGUE:
         return 'epilogue'
     if e[0] == 'phi':
